@@ -138,6 +138,12 @@ CLAIMED = {
             "symbolic execution of the real solver step / residual code on z3 terms with the LU contract (rows-as-identities) + z3 nlsat per scalar obligation; float replay",
             "Per-step algebraic guarantees only: Rattle stage 2, ScipyDAE drift, DualStormerVerlet and accumulated error over many steps are outside; "
             "'within solver tolerance' follows by composition with C22 (argued in DESIGN)."),
+    "C18": ("proof", "The real projection stages (Moreau.prox, Rattle.prox1/prox2, BackwardEuler.prox) run on solver objects whose per-step state is "
+            "symbolic; on every path of the min / ball projections: P_N >= 0, friction in the Coulomb disk; at a fixed point of the projection "
+            "(hypothesis): complementarity with the gap resp. the restituted gap rate, and for sliding contacts maximal dissipation; contacts that are not "
+            "closed get no velocity-level percussion.", "4/C18",
+            "path-exploring symbolic execution of the real projection code on z3 terms + z3 nlsat per obligation under the fixed-point hypothesis; float replay at float fixed points",
+            "One contact, two friction components; reaching the fixed point, DualStormerVerlet and the kinetic-energy clause are outside."),
 }
 
 NOT_APPLICABLE = {
